@@ -44,6 +44,8 @@ claimed = {
              ref="DESIGN.md §5 C18", technique="contract-based deductive verification (language-level safety obligations generated for every SSA instruction that can panic; integer / bit-vector SMT)"),
  "C04": dict(level="proof", text="Round trips as lemmas over the contracts of the real Marshal*/Unmarshal* code, for all 2^64 sizes and every setting of the three marshalling switches: MarshalText then UnmarshalText; MarshalJSON (number, quoted-string and object forms) then UnmarshalJSON under the default rule; String() and PrettyString() then UnmarshalText. The chain is: the marshalled bytes have the stated shape (proved from the formatter's append chain); prepareNumber's number is the digit subsequence of the leading digit/space run and its unit the rest (loop invariant with a recursive counting function); strconv.ParseUint(FormatUint(v)) == v (trusted); value x multiplier == size (from Shorten's exactness). For JSON the tokenisation of the three emitted shapes is an explicit trusted axiom about encoding/json (axiomJSONNumber/String/Object). Assumed MaxInputLength 0 or >= 41 and MaxObjectKeys 0 or >= 2. Not decided: nesting inside encoding/json documents (struct fields, slices, maps) - that part is encoding/json's own behaviour.",
              ref="DESIGN.md §5 C04", technique="contract-based deductive verification (staged lemmas as Go harness functions over contracts; recursive spec function; trusted axioms for strconv round trip and encoding/json tokenisation of three shapes)"),
+ "C06": dict(level="proof", text="Section 11 is written from the statement in first-difference form (prec11: release above pre-release; otherwise the identifiers holding the first differing byte decide: numeric ones by length then digit, numeric below alphanumeric, alphanumeric ones in ASCII order with a proper prefix below; a text that is a proper prefix of the other is below). Proved for texts of unbounded length: comparePreRelease's loop finds the first difference (invariant over firstDiff), its result is compareIdentifiers of the two identifiers (strings.LastIndexByte/IndexByte by their defining axioms), compareIdentifiers equals the identifier order (strings.Compare as byte-wise lexicographic order), and lemmas lemmaC06Ordered / lemmaC06Precedence / lemmaC06Version compose them: DefaultComparePreRelease(a,b) == prec11(a,b) and Ver.Compare == core order then prec11, for identifiers that are non-empty with no leading zero in numeric ones, outside the pinned a01/a1 class (both alphanumeric, digits only from the first difference on). Build is never read (syntactic frame check); the six string helpers and Latest* return the value-level result (C14 clauses). Gap: that every text accepted by the pre-release grammar satisfies the identifier well-formedness hypothesis is argued from the grammar, not proved.",
+             ref="DESIGN.md §5 C06, §0.3 D5", technique="contract-based deductive verification (loop invariant over an axiomatised first-difference function; pure functions as uninterpreted applications whose contracts are assumed for specification-level applications; staged lemmas)"),
 }
 
 not_applicable = {}
